@@ -1,6 +1,7 @@
 SPECIFICATION GSpecR
 CONSTANTS
-  Values = {1, 2, 3, 4, 5, 6, 7, 9, 12}
+  Values = {0, 1, 2, 3, 4, 5, 6, 7, 9, 12}
+  NegMag = {1, 3}
   Gaps = {0, 1, 2, 5}
   MaxLen = 12
 INVARIANT Emit
